@@ -617,7 +617,16 @@ class Process:
         proc = self.parent()
         while proc is not None:
             parents.append(proc)
-            proc = proc.parent()
+            try:
+                proc = proc.parent()
+            except NoSuchProcess:
+                # An ancestor disappeared while walking up the tree:
+                # that says nothing about this process, so the chain
+                # just ends there.
+                break
+            except AccessDenied as err:
+                msg = f"can't inspect ancestor ({err})"
+                raise AccessDenied(self.pid, self._name, msg=msg) from err
         return parents
 
     def is_running(self):
@@ -970,7 +979,13 @@ class Process:
         is lost.
         """
         self._raise_if_pid_reused()
-        ppid_map = _ppid_map()
+        try:
+            ppid_map = _ppid_map()
+        except AccessDenied as err:
+            # Some other process could not be inspected: report it as
+            # an error of this call (hence with this process PID).
+            msg = f"can't build the process tree ({err})"
+            raise AccessDenied(self.pid, self._name, msg=msg) from err
         ret = []
         if not recursive:
             for pid, ppid in ppid_map.items():
